@@ -406,6 +406,10 @@ def finish(ctx: Ctx, level: str, explanation: str, checker_cmd: str) -> int:
     os.makedirs(os.path.join(OUT, "obligations"), exist_ok=True)
     with open(os.path.join(OUT, "obligations", f"{ctx.pid}.json"), "w") as f:
         json.dump(sorted(o.name for o in ctx.obligations if o.status == DISCHARGED and o.kind not in ("canary", "cover", "consistency")), f)
+    # solver times per obligation (stability audit: a slow query is an unstable one)
+    os.makedirs(os.path.join(OUT, "times"), exist_ok=True)
+    with open(os.path.join(OUT, "times", f"{ctx.pid}.json"), "w") as f:
+        json.dump(sorted(([round(o.seconds, 2), o.name, o.backend] for o in ctx.obligations if o.seconds >= 0.5), reverse=True)[:200], f)
     os.makedirs(EVIDENCE_DIR, exist_ok=True)
     with open(os.path.join(EVIDENCE_DIR, f"{ctx.pid}.json"), "w") as f:
         json.dump(jsonable(ev), f, indent=1)
